@@ -2,12 +2,14 @@
 //! `vh <property> [--tier quick|thorough]`, `vh replay <file>`.
 //! Worker processes are the same binary with VH_WORKER=1.
 
+mod c10;
 mod capture;
 mod e1;
 mod e2;
 mod e3;
 mod e4;
 mod e4b;
+mod e5run;
 mod gen;
 mod gen3;
 mod implrun;
@@ -16,6 +18,7 @@ mod refsolve;
 mod refbuiltins;
 mod refunify;
 mod report;
+mod sessions;
 mod supervise;
 mod term;
 
@@ -31,6 +34,7 @@ fn engine_of(prop: &str) -> &'static str {
         "C06" | "C07" | "C08" | "C09" | "C13" => "e1",
         "C01" | "C02" | "C03" | "C04" | "C05" | "C10" | "C11" | "C12" | "C14" | "C15" | "C16" | "C17" => "e2",
         "C18" | "C19" | "C20" | "C21" => "e4",
+        "C22" | "C23" => "tm",
         _ => "none",
     }
 }
@@ -42,7 +46,9 @@ fn main() {
         std::process::exit(2);
     }
     // big stack: both the reference interpreter and the engine recurse
-    let child = std::thread::Builder::new().stack_size(1 << 30).spawn(move || real_main(args)).unwrap();
+    // (the session-history workers fork once per history: a small stack keeps the copy-on-write cost down)
+    let forking = std::env::var("VH_WORKER").is_ok() && args.iter().any(|a| a == "C22" || a == "C23");
+    let child = std::thread::Builder::new().stack_size(if forking { 32 << 20 } else { 1 << 30 }).spawn(move || real_main(args)).unwrap();
     let code = child.join().unwrap_or(2);
     std::process::exit(code);
 }
@@ -70,6 +76,8 @@ fn real_main(args: Vec<String>) -> i32 {
         match eng.as_str() {
             "e1" => e1::worker(&tier),
             "e2" => e2::worker(&prop, &tier),
+            "tm" | "sessions" => sessions::worker(&prop, &tier),
+            "c10" => c10::worker(&tier),
             "e4" => match prop.as_str() {
                 "C18" => e4::worker_c18(&tier),
                 "C19" => e4::worker_c19(&tier),
@@ -84,6 +92,7 @@ fn real_main(args: Vec<String>) -> i32 {
         "e1" => run_e1(&prop, &tier),
         "e2" => run_e2(&prop, &tier),
         "e4" => run_e4(&prop, &tier),
+        "tm" => run_tm(&prop, &tier),
         _ => {
             eprintln!("unknown property {}", prop);
             2
@@ -111,6 +120,9 @@ fn replay(path: &str) -> i32 {
             Some("c21") => e4b::replay_c21(w),
             _ => e4::replay_c19(w),
         },
+        Some("e5") => e5run::replay(w),
+        Some("c10") => c10::replay(w),
+        Some("sessions") => sessions::replay(w),
         Some("e3") => {
             println!("list case: {}", w["text"]);
             println!("(re-run ./check C15: the direct list checks are deterministic and take under a second)");
@@ -166,8 +178,13 @@ fn run_e1(prop: &str, tier: &str) -> i32 {
 fn run_e2(prop: &str, tier: &str) -> i32 {
     let args = vec![prop.to_string(), "--tier".into(), tier.to_string()];
     let cap = if tier == "thorough" { 3 * 3600 } else { 900 };
-    let out = supervise::run_sharded(&args, nshards(), Duration::from_secs(20), Duration::from_secs(cap), &[]);
-    let calls = *out.stats.get("next_solution_calls").unwrap_or(&0);
+    let mut out = supervise::run_sharded(&args, nshards(), Duration::from_secs(20), Duration::from_secs(cap), &[]);
+    if prop == "C10" {
+        // the direct part: renaming every term / goal / rule / query of the grammar
+        let o2 = supervise::run_sharded(&args, nshards(), Duration::from_secs(20), Duration::from_secs(cap), &[("VH_ENGINE".to_string(), "c10".to_string())]);
+        out.absorb(o2);
+    }
+    let calls = *out.stats.get("next_solution_calls").unwrap_or(&0) + *out.stats.get("renamings").unwrap_or(&0);
     let hist = *out.stats.get("histories").unwrap_or(&0);
     // C15's direct part: each element sequence is a state, each list built from it a transition
     let seqs = *out.stats.get("sequences").unwrap_or(&0);
@@ -252,5 +269,63 @@ fn run_e4(prop: &str, tier: &str) -> i32 {
         ),
     };
     let verdict = report::Verdict { property: prop.to_string(), level: level.into(), coverage, assumptions };
+    report::finish(verdict, &out)
+}
+
+/// C22 / C23: the E5 explorer (virtual time, all interleavings within the
+/// bounds) plus the session histories with the real timer in real time.
+fn run_tm(prop: &str, tier: &str) -> i32 {
+    let cap = if tier == "thorough" { 3 * 3600 } else { 900 };
+    let mut out = e5run::run(prop, tier, nshards(), Duration::from_secs(cap));
+    let e5_outcomes = e5run::OUTCOMES.with(|o| o.borrow().clone());
+    let args = vec![prop.to_string(), "--tier".into(), tier.to_string()];
+    let o2 = supervise::run_sharded(&args, nshards(), Duration::from_secs(60), Duration::from_secs(cap), &[]);
+    out.absorb(o2);
+    // real-time conformance: outcomes observed with the genuine thread_timer crate and OS
+    // threads must be members of the outcome sets explored for the matching scenario
+    let mut conf_ok = 0u64;
+    let mut conf_total = 0u64;
+    let abstract_of = |s: &str| (s.matches(" = ").count(), s.contains("timed out"));
+    let confs: Vec<Value> = out.records.iter().filter(|r| r["t"] == "conf").cloned().collect();
+    for c in &confs {
+        let scen = c["scenario"].as_str().unwrap_or("");
+        let oc = c["outcome"].as_str().unwrap_or("");
+        let Some(set) = e5_outcomes.get(scen) else { continue };
+        conf_total += 1;
+        let hit = if c["abstract"].as_bool().unwrap_or(false) { set.keys().any(|k| abstract_of(k) == abstract_of(oc)) } else { set.contains_key(oc) };
+        if hit {
+            conf_ok += 1;
+        } else {
+            out.records.push(json!({"t":"viol","prop":prop,"class":format!("conformance:{}", scen),"kind":"conformance","msg":format!("a real-time run with the genuine timer crate gave the outcome {:?}, which is not among the {} outcomes explored for scenario {}: {:?}", oc, set.len(), scen, set.keys().collect::<Vec<_>>()),"witness":{"engine":"conformance","scenario":scen,"outcome":oc}}));
+        }
+    }
+    out.records.retain(|r| r["t"] != "conf");
+    let g = |k: &str| *out.stats.get(k).unwrap_or(&0);
+    let coverage = json!({
+        "states": g("e5.choice_points") + out.distinct.get("global_states").copied().unwrap_or(0),
+        "transitions": g("e5.schedules") + g("engine_calls"),
+        "traces_validated_against_impl": conf_ok + g("histories"),
+        "samples": report::samples(&out, 8),
+        "exhaustive": !out.capped,
+        "schedules_explored": g("e5.schedules"),
+        "scheduling_and_time_choice_points": g("e5.choice_points"),
+        "distinct_outcomes_over_all_scenarios": out.distinct.get("e5_outcomes"),
+        "real_time_conformance_runs": conf_total,
+        "real_time_conformance_matched": conf_ok,
+        "session_histories_in_fresh_processes": g("histories"),
+        "rule": "E5: state = one scheduling or time choice point of an execution of the real solve/solve_all/next_solution code with the real thread_timer source on shuttle primitives; every schedule with <= P preemptions and <= D time deviations is executed (depth-first, prefix replay checked for divergence) and judged by the answer-prefix/timeout oracle; sessions: every history of sessions up to the length bound is run in a fresh process with the real timer and compared with the reference interpreter; real-time runs must land in the explored outcome sets",
+        "bounds": e5run::plans(prop, tier).iter().map(|p| format!("{}: preemptions<={} time-deviations<={}{}", p.scenario, p.pre, p.dev, if p.shard_prefix > 0 { format!(" (sharded by {}-step schedule prefixes)", p.shard_prefix) } else { String::new() })).collect::<Vec<_>>(),
+    });
+    let verdict = report::Verdict {
+        property: prop.to_string(),
+        level: "model_checking".into(),
+        coverage,
+        assumptions: vec![
+            "the timer is thread_timer 0.3.0's own source with its three `use std::...` lines re-targeted onto shuttle primitives (hash-checked generator, harness_e5/gen_shim.sh); timed waits run on a virtual clock that advances only at query_stopped() checks and between sessions".into(),
+            "sequentially consistent interleavings only (shuttle); weak-memory effects are C24's (Miri)".into(),
+            "scheduling points: every shuttle synchronisation operation plus the five hook events of time_out.rs (cfg suiron_verif)".into(),
+            "session histories: a slow query is one whose search cannot finish within seconds (10^9 inferences), so its timeout is deterministic".into(),
+        ],
+    };
     report::finish(verdict, &out)
 }
